@@ -41,7 +41,7 @@ def one(m):
             tests_ok = r.returncode == 0
         out = []
         for prop in m["props"]:
-            env = dict(os.environ, VERIF_REPO=dst, VERIF_SEED=os.environ.get("VERIF_SEED", "1"))
+            env = dict(os.environ, VERIF_REPO=dst, VERIF_SEED=os.environ.get("VERIF_SEED", "1"), VERIF_EVIDENCE_DIR=os.path.join(d, "evidence"))
             r = subprocess.run([os.path.join(here, "check"), prop, "--tier", "quick", "--no-shrink"], capture_output=True, text=True, env=env, cwd=here)
             first = next((l for l in r.stdout.splitlines() if l.startswith("violation signature")), "")
             out.append((prop, r.returncode, first[:160] or r.stdout[-300:].replace("\n", " | ")))
@@ -50,10 +50,7 @@ def one(m):
         shutil.rmtree(d, ignore_errors=True)
 
 sel = [m for m in muts if (not args or set(m["props"]) & set(args)) and (not name_filter or name_filter in m["name"])]
-# evidence files are rewritten by mutant runs: save and restore them
-saved = {}
-for f in os.listdir(os.path.join(here, "evidence")):
-    saved[f] = open(os.path.join(here, "evidence", f)).read()
+# (mutant runs write their evidence into the scratch copy, see VERIF_EVIDENCE_DIR)
 try:
     with cf.ThreadPoolExecutor(jobs) as ex:
         for m, status, out in ex.map(one, sel):
@@ -63,5 +60,4 @@ try:
                 verdict = "CAUGHT" if rc == 1 else ("MISSED" if rc == 0 else "HARNESS-ERR")
                 print(f"{m['name']:45s} {prop} {verdict:8s} {status} {first}")
 finally:
-    for f, s in saved.items():
-        open(os.path.join(here, "evidence", f), "w").write(s)
+    pass
